@@ -301,6 +301,10 @@ def _operand(draw, world, hi, dom, cont, refs):
         return o
     if c < 7 and refs:
         others = [i for i in world.attached_handles()]
+        foreign = [i for i in others if world.handles[i].res != world.handles[hi].res
+                   and world.handles[i].kind == world.handles[hi].kind]
+        if foreign and draw(st.integers(0, 3)) != 0:
+            return Ref(draw(st.sampled_from(foreign)))
         if others:
             return Ref(draw(st.sampled_from(others)))
     if c == 7:
